@@ -23,7 +23,7 @@ def observe(slot, probes_p, probes_u):
 class C10(ProgramProperty):
     id = "C10"
     theorems = ["C10_frame_followup", "C10_frame_chain", "C10_frame_copy", "C10_histories",
-                "C10_chain_mutates_input_pinned"]
+                "C10_chain_mutates_input_pinned", "C10_chain_refines", "C10_copy_refines"]
     lean_modules = ["CuriesVerif.Properties.C10"]
     rule = ("one case = two strict input converters with overlapping records, one derivation drawn from chain (both "
             "orders, both case modes), get_subconverter, remap_curie_prefixes, remap_uri_prefixes, rewire, "
